@@ -143,6 +143,11 @@ def generate(run_index, seed, tier):
                 el["t"] = el["row_t"]
     # a delayed onset changes validity of later offsets: recompute validity with the reference run and drop bad offsets
     elements = _drop_invalid(elements)
+    # definition names are case-insensitive: a restart or an Offset may spell the name differently from the Onset
+    for el in elements:
+        if el["kind"] in ("onset", "offset") and g.chance(0.25):
+            nm, _, val = el["key"].partition("/")
+            el["spell"] = g.pick([nm.lower(), nm.upper()]) + (("/" + val) if val else "")
     # rows: per carrying time, 1-3 rows with equal onset
     rows = []
     for T in times:
@@ -165,9 +170,9 @@ def _text(e):
     delay = ", Delay/%s s" % _fmt(e["delay"]) if e.get("delay") else ""
     if e["kind"] == "onset":
         inner = ", (%s)" % e["inner"] if e.get("inner") else ""
-        return "(Def/%s, Onset%s%s)" % (e["key"], inner, delay)
+        return "(Def/%s, Onset%s%s)" % (e.get("spell", e["key"]), inner, delay)
     if e["kind"] == "offset":
-        return "(Def/%s, Offset)" % e["key"]
+        return "(Def/%s, Offset)" % e.get("spell", e["key"])
     return "(Duration/%s %s%s, (%s))" % (e["val"], e["unit"], delay, ", ".join(e["content"]))
 
 
@@ -251,7 +256,7 @@ def simulate(elements, row_times):
             key = e["key"].casefold()
             if key in open_:
                 open_[key]["end"] = i
-            kids = ["Def/" + e["key"]] + ([[e["inner"]]] if e.get("inner") else [])
+            kids = ["Def/" + e.get("spell", e["key"])] + ([[e["inner"]]] if e.get("inner") else [])
             p = {"start": i, "end": len(tps), "content": vocab.canon(kids), "key": key}
             procs.append(p)
             open_[key] = p
@@ -328,6 +333,14 @@ def execute(sc, script=None):
         viol("remainder", "after a type-filtered HedTagManager was built on the same EventManager, the remaining annotation of "
              "entry %d reads %r (before: %r)" % (k, obs["hed_after_filtered_view"][k], obs["hed"][k]),
              "remainder-changed-by-filtered-view")
+    elif any("Event-context" in o for o in obs["objs_no_context"]):
+        k = [i for i, o in enumerate(obs["objs_no_context"]) if "Event-context" in o][0]
+        viol("remainder", "get_hed_objs(include_context=False) after a call with context still holds an Event-context group: %r"
+             % obs["objs_no_context"][k], "context-in-contextless-view")
+    elif obs["objs_same_manager_again"] != obs["objs"]:
+        k = [i for i, (a, b) in enumerate(zip(obs["objs"], obs["objs_same_manager_again"])) if a != b][0]
+        viol("remainder", "the same HedTagManager asked again gives %r, the first time %r" % (obs["objs_same_manager_again"][k], obs["objs"][k]),
+             "same-view-asked-twice-differs")
     elif obs["objs_again"] != obs["objs"]:
         viol("remainder", "a second unfiltered HedTagManager on the same EventManager gives other objects than the first",
              "second-view-differs")
@@ -381,6 +394,9 @@ def _run(W, rows):
         out = {"onsets": onsets, "base": list(em.base), "contexts": list(em.contexts), "hed": [str(h) for h in em.hed_strings],
                "events": [[(e.start_index, e.end_index) for e in evs] for evs in em.event_list],
                "objs": [str(o) if o is not None else "" for o in objs]}
+        # history on the same tag manager: without context, then with context again
+        out["objs_no_context"] = [str(o) if o is not None else "" for o in tm.get_hed_objs(include_context=False)]
+        out["objs_same_manager_again"] = [str(o) if o is not None else "" for o in tm.get_hed_objs(include_context=True)]
         # history on the same manager: a type-filtered view is built from it, then it is read again - the remaining
         # annotation of every point is kept, and a second unfiltered view equals the first
         tm2 = W["HedTagManager"](em, remove_types=["Condition-variable", "Task"])
